@@ -199,9 +199,10 @@ def load_known():
 
 
 def write_replay(prop, payload):
-    os.makedirs(os.path.join(ROOT, "replays"), exist_ok=True)
+    rdir = os.environ.get("PYVC_REPLAY_DIR", os.path.join(ROOT, "replays"))
+    os.makedirs(rdir, exist_ok=True)
     h = hashlib.sha1(json.dumps(payload, sort_keys=True, default=str).encode()).hexdigest()[:12]
-    path = os.path.join(ROOT, "replays", f"{prop}-{h}.json")
+    path = os.path.join(rdir, f"{prop}-{h}.json")
     with open(path, "w") as f:
         json.dump(payload, f, indent=1, default=str)
     return path
@@ -372,9 +373,10 @@ def run_property(prop, tier):
         "wall_s": round(wall, 2),
         "violations": len(seen),
     }
-    os.makedirs(os.path.join(ROOT, "evidence"), exist_ok=True)
-    with open(os.path.join(ROOT, "evidence", f"{prop}.json"), "w") as f:
-        json.dump(ev, f, indent=1)
+    if not os.environ.get("PYVC_NO_EVIDENCE"):       # (scratch-copy campaigns must not overwrite the evidence of /repo)
+        os.makedirs(os.path.join(ROOT, "evidence"), exist_ok=True)
+        with open(os.path.join(ROOT, "evidence", f"{prop}.json"), "w") as f:
+            json.dump(ev, f, indent=1)
     print(f"{prop}: {ndis}/{nobl} obligations discharged, {len(seen)} violation(s), {len(known_lines)} known finding(s), "
           f"{len(undecided)} undecided, {len(errors)} engine error(s); {wall:.1f}s")
     return rc
